@@ -793,5 +793,8 @@ func directedC02() []progCase {
 	// closures, defer and go created in nested blocks of loop bodies (loopclosure_test.go)
 	out = append(out, loopClosureProbes()...)
 
+	// declarations whose initializer reads the variable they shadow (shadowinit_test.go)
+	out = append(out, shadowInitProbes()...)
+
 	return out
 }
